@@ -2,7 +2,7 @@ SPECIFICATION Spec
 CONSTANTS
   NChar = 2
   MaxLen = 3
-  MaxL = 2
+  MaxL = 1
   MaxR = 1
   QVal = 1
   Padding = FALSE
